@@ -123,6 +123,19 @@ func runC19(c *Ctx) {
 			}
 			continue
 		}
+		mp, mpOK := w.valueRootParam(method)
+		for i := 0; i < 3 && mpOK && mp.Parent() != root; i++ {
+			// handed on unchanged by a helper that is always given the same value
+			a, has := argOfParam(mp)
+			if !has {
+				break
+			}
+			mp, mpOK = w.valueRootParam(a)
+		}
+		if mpOK && mp.Name() == "callingMethod" && (mp.Parent() == root || (len(mp.Parent().Params) > 0 && strings.HasSuffix(mp.Parent().Params[0].Type().String(), "server.Request") && w.soleRequestRoot(fn, func(r *ssa.Function) bool { return r == mp.Parent() }) == mp.Parent())) {
+			c.OK("C19.3", fname(fn), "buildMsg type", pos, "the callingMethod parameter (callers pass their dispatch method, C03.2)")
+			continue
+		}
 		if p, ok := w.valueRootParam(method); ok && p.Parent() == root && p.Name() == "callingMethod" {
 			c.OK("C19.3", fname(fn), "buildMsg type", pos, "the callingMethod parameter (callers pass their dispatch method, C03.2)")
 			continue
